@@ -126,7 +126,12 @@ def run_case(case):
                 th.join(120)
             seq_ = [np.asarray(nd.Jacobian(ft, method=method, order=order)(xx, t)) for xx, t in ((np.array(x0, dtype=float), 0.0), (np.array(x0, dtype=float) + d, d))]
             thr_ok = all(isinstance(res_t.get(k_), np.ndarray) and np.array_equal(res_t[k_], s_, equal_nan=True) for k_, s_ in zip(('a', 'b'), seq_))
-            same = [bool(np.array_equal(a, b, equal_nan=True)) for a, b in zip((r1, r2, r3, g1), fresh)] + [bool(thr_ok)]
+            # the object's order re-assigned after it has been used (its generator must not remember anything about the old order)
+            o2 = 4 if order == 2 else 2
+            J.order = o2
+            r5 = np.array(J(np.array(x0, dtype=float), 0.0), copy=True)
+            f5 = np.asarray(nd.Jacobian(f, method=method, order=o2)(np.array(x0, dtype=float), 0.0))
+            same = [bool(np.array_equal(a, b, equal_nan=True)) for a, b in zip((r1, r2, r3, g1), fresh)] + [bool(thr_ok), bool(np.array_equal(r5, f5, equal_nan=True))]
             return ('ok', r3.tolist(), list(r3.shape), same, r1.tolist())
         if mode == 'jac-list':      # x given as a python list; result must be the same
             f = multi.vector_fun(rec, x0)
@@ -231,7 +236,7 @@ def run(tier, rep):
         affine = rec['kind'] == 'affine'
         tol = (1e-9 if affine else env_first(method)) * sc
         if mode == 'jac-hist' and not all(o[3]):
-            which = ['first call', 'call after x was changed in place', 'call with another extra argument', 'call at the first point again', 'pair of overlapping calls from two threads with different extra arguments'][o[3].index(False)]
+            which = ['first call', 'call after x was changed in place', 'call with another extra argument', 'call at the first point again', 'pair of overlapping calls from two threads with different extra arguments', 'call after the order attribute was re-assigned'][o[3].index(False)]
             rep.violation('history:jac', dict(case=name, same_as_fresh=o[3]), '%s: the %s of one Jacobian object differs from what a fresh object returns for the same (f, x, args)' % (name, which))
             continue
         if mode in ('jac', 'jac-list', 'jac-hist'):
